@@ -147,7 +147,7 @@ class _Binder:
 _UPDATE = _re.compile(r"^UPDATE KNOWN_HOSTS SET (.+?)(?: WHERE (.+))?$")
 _DELETE = _re.compile(r"^DELETE FROM KNOWN_HOSTS(?: WHERE (.+))?$")
 _ASSIGN = _re.compile(r"^([A-Z_]+) = \?$")
-_PRED = _re.compile(r"^([A-Z_]+) (=|!=|<>) \?$")
+_PRED = _re.compile(r"^([A-Z_]+) (=|!=|<>|LIKE) \?$")
 
 
 def _where(text, params):
@@ -166,9 +166,18 @@ def _where(text, params):
     return preds, params
 
 
+def _like(value, pattern):
+    """SQLite LIKE: % any run, _ any one character, ASCII case-insensitive"""
+    rx = "".join(".*" if ch == "%" else "." if ch == "_" else _re.escape(ch) for ch in str(pattern))
+    return _re.fullmatch(rx, str(value), _re.IGNORECASE | _re.DOTALL | _re.ASCII) is not None
+
+
 def _match(row, preds):
     for col, op, v in preds:
-        if (row[col] == v) != (op == "="):
+        if op == "LIKE":
+            if not _like(row[col], v):
+                return False
+        elif (row[col] == v) != (op == "="):
             return False
     return True
 
